@@ -256,6 +256,10 @@ def expr(f, n):
             ta, ka = expr(f, a); tb, kb = expr(f, b)
             if op == "-" and ka.startswith("into:") and kb == "str" and ka == "into:" + tb:
                 return f"((({ta}).getD 0 : Nat) : Int)", "int"          # pointer difference inside one string
+            if op == "+" and ka == "str" and kb == "int":
+                return f"(CSem.suffix {ta} {tb})", "str"            # pointer into a string, moved forward
+            if op == "+" and kb == "str" and ka == "int":
+                return f"(CSem.suffix {tb} {ta})", "str"
             it = int_type(n)
             if not it:
                 raise Unsupported(f"{f.name}: arithmetic in type {ctype(n)}")
